@@ -229,7 +229,9 @@ def exec_http2(test_bin, ops_path, impl_path, shards=12, timeout=3000):
             continue
         op, ip = f'{ops_path}.s{i}', f'{impl_path}.s{i}'
         open(op, 'w').write('\n'.join(part) + '\n')
-        e = dict(os.environ, VERIF_OPS=op, VERIF_OUT=ip, GOMAXPROCS='2')
+        e = dict(os.environ, VERIF_OPS=op, VERIF_OUT=ip, GOMAXPROCS='4')
+        if os.environ.get('VERIF_GORACE'):
+            e['GORACE'] = os.environ['VERIF_GORACE'] + f'-s{i}'
         pr = subprocess.Popen([test_bin, '-test.run', 'TestVerifExec$', f'-test.timeout={timeout}s'],
                               env=e, stdout=subprocess.PIPE, stderr=subprocess.STDOUT, text=True, errors='replace')
         procs.append((pr, ip, len(part)))
@@ -422,3 +424,18 @@ def reconcile_any(i, m):
         else:
             out.append(t)
     return i, ' '.join(out)
+
+
+def multi(f2=None, f1=None):
+    """Lift a per-client reconcile (two-argument) or projection (one-argument) to ' || '-separated groups."""
+    if f2:
+        def g(i, m):
+            ig, mg = i.split(' || '), m.split(' || ')
+            if len(ig) != len(mg):
+                return i, m
+            pairs = [f2(a, b) for a, b in zip(ig, mg)]
+            return ' || '.join(p[0] for p in pairs), ' || '.join(p[1] for p in pairs)
+        return g
+    def h(line):
+        return ' || '.join(f1(x) for x in line.split(' || '))
+    return h
